@@ -117,6 +117,22 @@ Theorem dd_no_deadlock : forall c progs s, R c progs s -> quiescent glob loc tst
   all_fin glob loc fin s = true.
 Proof. exact no_deadlock. Qed.
 
+(* ---------- bounded work, termination ---------- *)
+(* mu: budget of the objects (what their callback / destructor may still cause, re-entrant chains included)
+   + 4 per vector entry + the weights of the pending instructions and of the operations still to be invoked.
+   Every enabled step, under any choice (time-outs included), lowers it: no schedule makes more than mu(s) moves *)
+Theorem dd_bounded_work : forall c progs s sc, R c progs s -> (moves glob loc tstep s sc <= mu s)%nat.
+Proof. exact bounded_work. Qed.
+(* existence form: from every reachable state there is a schedule of at most mu(s) steps after which every thread
+   has finished, provided the states passed through meet the client obligation about DestroyContainer
+   (gate_ok = the hypothesis of dd_no_deadlock: a thread waiting at the gate has no later container operation and
+   is the only one there) *)
+Theorem dd_eventually_finishes : forall c progs s, R c progs s ->
+  (forall s', reachable glob loc tstep s s' -> gate_ok s') ->
+  exists sc, sched_ok any_choice sc /\ (length sc <= mu s)%nat /\
+             all_fin glob loc fin (run glob loc tstep s sc) = true.
+Proof. exact eventually_finishes. Qed.
+
 (* ---------- non-vacuity: the hypotheses are met by concrete reachable states ---------- *)
 Definition one (n : nat) : list (nat * nat) := repeat (0, 0)%nat n.
 Definition cfg_cb := Config true true [].
@@ -166,3 +182,18 @@ Example ex_survives_container :
   let s' := st_of cfg_cb [[Add 1 0 0; DestroyContainer; Drop 1]] (one 60) in
   cstate (gl s) = 2 /\ dcnt (gl s) 1 = 0 /\ ext (gl s) 1 = 1 /\ dcnt (gl s') 1 = 1 /\ all_fin glob loc fin s' = true.
 Proof. vm_compute. repeat split. Qed.
+
+(* a sweep in progress with re-entrant chains pending: thread 1 is between the callbacks of a batch of two (object 1's
+   destructor hands over a chain of three generations, object 2's callback a chain of two), thread 0 waits at
+   the gate of DestroyContainer.  mu is 111 (127 initially); 9 steps of thread 1 and 31 of thread 0 finish the run,
+   all seven objects destroyed after their callback *)
+Definition ex_chain_progs := [[Add 0 6 0; DestroyContainer]; [Add 0 0 5; DestroyObjects]].
+Definition ex_chain_sched := (one 3 ++ repeat (1, 0) 7 ++ one 4)%nat.
+Example ex_bounded_work_chain :
+  let s := st_of cfg_cb ex_chain_progs ex_chain_sched in
+  let sc := (repeat (1, 0) 9 ++ one 31)%nat in
+  let s' := run glob loc tstep s sc in
+  head_is s 0 IDcGate /\ head_is s 1 (ICb 2 [] [1; 2] 0) /\ mu (init cfg_cb ex_chain_progs) = 127 /\ mu s = 111 /\
+  moves glob loc tstep s sc = 40 /\ length sc <= mu s /\ all_fin glob loc fin s' = true /\
+  dlog (gh (gl s')) = [7; 6; 5; 4; 3; 2; 1] /\ cblog (gh (gl s')) = [7; 6; 5; 4; 3; 2; 1] /\ mu s' = 0.
+Proof. vm_compute. repeat split; try (eexists; eexists; split; reflexivity); auto; lia. Qed.
